@@ -21,17 +21,17 @@ func init() {
 
 // domain -> allowed signed object types (consensus-specs v1.5.0-beta.2)
 var domainObjects = map[string][]string{
-	"DOMAIN_BEACON_PROPOSER":                  {"BeaconBlockHeader", "Root"},
-	"DOMAIN_BEACON_ATTESTER":                  {"AttestationData"},
-	"DOMAIN_RANDAO":                           {"Epoch"},
-	"DOMAIN_DEPOSIT":                          {"DepositMessage", "DepositData.MessageRoot"},
-	"DOMAIN_VOLUNTARY_EXIT":                   {"VoluntaryExit"},
-	"DOMAIN_SELECTION_PROOF":                  {"Slot"},
-	"DOMAIN_AGGREGATE_AND_PROOF":              {"AggregateAndProof"},
-	"DOMAIN_SYNC_COMMITTEE":                   {"Root"},
-	"DOMAIN_SYNC_COMMITTEE_SELECTION_PROOF":   {"SyncAggregatorSelectionData"},
-	"DOMAIN_CONTRIBUTION_AND_PROOF":           {"ContributionAndProof"},
-	"DOMAIN_BLS_TO_EXECUTION_CHANGE":          {"BLSToExecutionChange"},
+	"DOMAIN_BEACON_PROPOSER":                {"BeaconBlockHeader", "Root"},
+	"DOMAIN_BEACON_ATTESTER":                {"AttestationData"},
+	"DOMAIN_RANDAO":                         {"Epoch"},
+	"DOMAIN_DEPOSIT":                        {"DepositMessage", "DepositData.MessageRoot"},
+	"DOMAIN_VOLUNTARY_EXIT":                 {"VoluntaryExit"},
+	"DOMAIN_SELECTION_PROOF":                {"Slot"},
+	"DOMAIN_AGGREGATE_AND_PROOF":            {"AggregateAndProof"},
+	"DOMAIN_SYNC_COMMITTEE":                 {"Root"},
+	"DOMAIN_SYNC_COMMITTEE_SELECTION_PROOF": {"SyncAggregatorSelectionData"},
+	"DOMAIN_CONTRIBUTION_AND_PROOF":         {"ContributionAndProof"},
+	"DOMAIN_BLS_TO_EXECUTION_CHANGE":        {"BLSToExecutionChange"},
 }
 
 // fixed fork-version classes for ComputeDomain call sites: domain -> allowed version expressions (leaf names)
@@ -130,9 +130,9 @@ func isDomainVar(o types.Object) bool {
 }
 
 type domainFact struct {
-	name    string   // DOMAIN_X
-	version string   // leaf name of the fork-version argument when built by ComputeDomain ("" otherwise)
-	root    string   // genesis-validators-root argument (for deposit: must be the zero root)
+	name    string // DOMAIN_X
+	version string // leaf name of the fork-version argument when built by ComputeDomain ("" otherwise)
+	root    string // genesis-validators-root argument (for deposit: must be the zero root)
 	via     string
 }
 
